@@ -69,6 +69,14 @@ func Shard() (int, int) {
 	return i, n
 }
 
+// FirstShard reports whether this process is shard 0: deterministic
+// enumerations run only there, so that a sharded run counts every enumerated
+// cell once.
+func FirstShard() bool {
+	i, _ := Shard()
+	return i == 0
+}
+
 // VerifDir is the /verif root.
 func VerifDir() string {
 	if d := os.Getenv("VERIF_DIR"); d != "" {
